@@ -144,6 +144,17 @@ CLAIMS = {
           'sigma clipping, per-position local background, batch==single and sky==to_pixel on the implementation.',
   'note': 'Trusted: Lean kernel + standard axioms; hand model tied by differential testing; astropy SigmaClip; moment-based shape columns beyond the centroid not modelled. Cases whose aperture weights are non-finite are C01 known finding F20 and are skipped here.',
  },
+ 'C11': {
+  'design_ref': 'DESIGN.md §5 C11',
+  'technique': 'Lean 4 theorems over an exact model of the mesh statistics (tiling, exclusion, astropy sigma clipping, mean/median/SExtractor, IDW, clip, coverage fill) with constants regenerated from the source + per-box correspondence with Background2D (bottleneck on/off) and implementation-side relation probes',
+  'text': 'Proved in Lean: every pixel lies in exactly one mesh box (y//by, x//bx) and that box index is inside the padded mesh (tiling_partition, box_in_range); a mesh value does not depend on what is stored under masked pixels (mesh_mask_blind); '
+          'mean, variance, median and the SExtractor estimate are shift- and scale-equivariant and the sigma-clip bounds and decisions (astropy semantics: iterate, final bounds applied to the original sample) transport exactly through x+c and k·x, k>0 '
+          '(mean_shift/scale, variance_shift/scale, median_shift/scale, sigBounds_map, clipped_shift, clipped_scale, estimate_shift, estimate_scale); a constant box gives exactly the constant, variance 0 and nothing clipped (constant_box_exact); '
+          'Shepard IDW values (fill of excluded meshes, IDW upscaling) are convex combinations and stay within the range of the neighbours (idw_within_range); the clipped zoom stays within the mesh range (clip_within_range); coverage pixels get fill_value (coverage_gets_fill). '
+          'The SExtractor factors/threshold/operators, the exclusion rule and the clip/fill statements are regenerated from the source each run (Gen/BkgConsts.lean, generated_consts). [partial] scipy zoom/cKDTree, float rounding and the Mode/MMM/biweight/MAD estimators are not modelled - probed on the implementation. '
+          'Tie: per-box background, variance, pixel count and exclusion of Background2D(filter_size=1) vs the exact model on images 1-11 px with padded edge/corner boxes, masks, coverage masks, NaN/inf, outliers, exclude_percentile 0-100, sigma None/1.5-3, maxiters 1-10, with and without bottleneck; ShepardIDWInterpolator vs the model.',
+  'note': 'Trusted: Lean kernel + standard axioms; hand model tied by differential testing; astropy SigmaClip modelled, scipy zoom / cKDTree as oracles.',
+ },
  'C12': {
   'design_ref': 'DESIGN.md §5 C12',
   'technique': 'Lean 4 theorems on the bookkeeping model of PSFPhotometry / SourceGrouper (groups as graph components via the C04 theory, grouped<->input order permutation, fit-window counts, flags) + correspondence; recovery probed',
